@@ -1,8 +1,17 @@
 package main
 
-// Concurrency-related constructs and effectful callbacks (ghost trace). Filled in per property.
+// Effects: ghost event trace, effectful callbacks, closures known to the verifier, goroutine/channel events.
+//
+// The trace is a ghost sequence of events; event i has
+//   tr_kind[i]: 1 = synchronous call of a function value, 2 = call of an opaque interface method (e.g. the wrapped transport),
+//               3 = Post of a function value to a Handler, 4 = go statement, 5 = channel send, 6 = channel close
+//   tr_fn[i]  : the function value called / posted / spawned
+//   tr_arg[i] : its first argument boxed (nil_Val if none);  tr_obj[i]: the receiver object (handler, transport, channel)
+//   tr_err[i] : the error result of the call, if it has one
+// Contracts speak about tr_len and these arrays (old(tr_len) is the length at entry).
 
 import (
+	"fmt"
 	"go/ast"
 	"go/token"
 	"go/types"
@@ -11,17 +20,276 @@ import (
 type litInfo struct {
 	lit   *ast.FuncLit
 	owner *FuncInfo
+	ord   int
+	blk   *Block
+	info  *types.Info
+}
+
+type traceState struct {
+	n                       Term
+	kind, fn, arg, obj, err Term
+}
+
+func (u *Unit) newTrace(hint string) *traceState {
+	t := &traceState{
+		n:    u.D.Fresh(hint+"_len", SInt),
+		kind: u.D.Fresh(hint+"_kind", ArrS(SInt, SInt)),
+		fn:   u.D.Fresh(hint+"_fn", ArrS(SInt, SFn)),
+		arg:  u.D.Fresh(hint+"_arg", ArrS(SInt, SVal)),
+		obj:  u.D.Fresh(hint+"_obj", ArrS(SInt, SRef)),
+		err:  u.D.Fresh(hint+"_err", ArrS(SInt, SErr)),
+	}
+	return t
+}
+
+func (u *Unit) trace(env *Env) *traceState {
+	if env.tr == nil {
+		env.tr = u.newTrace("tr0")
+		env.assume(le(IntLit(0), env.tr.n))
+		if u.entry != nil && u.entry.tr == nil {
+			cp := *env.tr
+			u.entry.tr = &cp
+		}
+	}
+	return env.tr
+}
+
+func (u *Unit) emit(env *Env, kind int, fn Term, arg Term, obj Term, errv Term) {
+	t := u.trace(env)
+	nt := &traceState{n: add(t.n, IntLit(1)), kind: Store(t.kind, t.n, IntLit(int64(kind))), fn: t.fn, arg: t.arg, obj: t.obj, err: t.err}
+	if fn.S != "" {
+		nt.fn = Store(t.fn, t.n, fn)
+	}
+	if arg.S != "" {
+		nt.arg = Store(t.arg, t.n, arg)
+	}
+	if obj.S != "" {
+		nt.obj = Store(t.obj, t.n, obj)
+	}
+	if errv.S != "" {
+		nt.err = Store(t.err, t.n, errv)
+	}
+	nt.n = u.define(env, "trn", nt.n)
+	nt.kind = u.define(env, "trk", nt.kind)
+	nt.fn = u.define(env, "trf", nt.fn)
+	nt.arg = u.define(env, "tra", nt.arg)
+	nt.obj = u.define(env, "tro", nt.obj)
+	nt.err = u.define(env, "tre", nt.err)
+	env.tr = nt
+}
+
+func (u *Unit) traceName(env *Env, name string) (Value, bool) {
+	switch name {
+	case "tr_len", "tr_kind", "tr_fn", "tr_arg", "tr_obj", "tr_err":
+	default:
+		return Value{}, false
+	}
+	t := u.trace(env)
+	switch name {
+	case "tr_len":
+		return Value{t.n, types.Typ[types.Int]}, true
+	case "tr_kind":
+		return Value{t.kind, nil}, true
+	case "tr_fn":
+		return Value{t.fn, nil}, true
+	case "tr_arg":
+		return Value{t.arg, nil}, true
+	case "tr_obj":
+		return Value{t.obj, nil}, true
+	}
+	return Value{t.err, nil}, true
+}
+
+// after a call whose contract has effects on the trace: a fresh trace constrained by the callee's ensures
+func (u *Unit) havocTrace(env *Env) {
+	old := u.trace(env)
+	nt := u.newTrace("trc")
+	env.assume(le(old.n, nt.n))
+	// events before the call are history: they do not change
+	i := u.D.Bound("i", SInt)
+	rng := And(le(IntLit(0), i), lt(i, old.n))
+	env.assume(Forall([]Term{i}, Imp(rng, And(Same(Select(nt.kind, i), Select(old.kind, i)), Same(Select(nt.fn, i), Select(old.fn, i)), Same(Select(nt.arg, i), Select(old.arg, i)), Same(Select(nt.obj, i), Select(old.obj, i)), Same(Select(nt.err, i), Select(old.err, i))))))
+	env.tr = nt
+}
+
+// application of an opaque function value in effectful mode: one synchronous call event; results arbitrary
+func (u *Unit) applyEffectful(env *Env, fn Term, sig *types.Signature, args []Value, at ast.Node) []Outcome {
+	if li := u.knownLits[fn.S]; li != nil {
+		return u.applyKnownLit(env, li, fn, sig, args, at)
+	}
+	u.safety(env, "nil", at.Pos(), "call of nil function value "+u.exprText(at), Not(Same(fn, Term{"nil_Fn", SFn})))
+	arg := Term{"nil_Val", SVal}
+	if len(args) > 0 {
+		if args[0].Sort == SVal {
+			arg = args[0].Term
+		} else {
+			arg = u.box(args[0]).Term
+		}
+	}
+	var vals []Value
+	errv := Term{}
+	for i := 0; i < sig.Results().Len(); i++ {
+		rt := sig.Results().At(i).Type()
+		v := u.D.Fresh("cbres", u.sortOf(rt))
+		u.typeInvariant(env, v, rt)
+		if v.Sort == SErr {
+			errv = v
+		}
+		vals = append(vals, Value{v, rt})
+	}
+	u.emit(env, 1, fn, arg, Term{}, errv)
+	u.callbackHavoc(env)
+	u.assumeUsed("user callbacks act on library objects only through exported methods; what they may change is the rely condition stated per property")
+	return ret(env, vals...)
+}
+
+// what an opaque callback may have changed ("rely"): by default nothing of the modelled heap; a unit may declare
+// "opt callback-havoc=<expr>,..." naming slices whose header and cells beyond the length observed before the call may change
+func (u *Unit) callbackHavoc(env *Env) {
+	if u.Block == nil || u.Block.Opts["callback-havoc"] == "" {
+		return
+	}
+	u.havocHeaps(env, nil)
+	u.heapsHavocked = true
+}
+
+// a literal whose creation the verifier has seen: by contract if it has one, else inlined in the current state
+// (captured variables are shared with the enclosing activation, as in Go)
+func (u *Unit) applyKnownLit(env *Env, li *litInfo, fn Term, sig *types.Signature, args []Value, at ast.Node) []Outcome {
+	if li.blk != nil {
+		return u.applyLitByContract(env, li, fn, sig, args, at)
+	}
+	if u.litDepth > 4 {
+		unsup("literal inlining too deep")
+	}
+	u.litDepth++
+	defer func() { u.litDepth-- }()
+	saveInfo, saveRes, saveTys, saveLoops, saveLits := u.Info, u.results, u.resTys, u.loops, u.lits
+	u.Info = li.info
+	defer func() { u.Info, u.results, u.resTys, u.loops, u.lits = saveInfo, saveRes, saveTys, saveLoops, saveLits }()
+	u.loops, u.lits = numberLoops(li.owner.Decl)
+	i := 0
+	for _, fld := range li.lit.Type.Params.List {
+		for _, n := range fld.Names {
+			if obj := u.Info.Defs[n]; obj != nil && i < len(args) {
+				env.vars[obj] = args[i].Term
+			}
+			i++
+		}
+		if len(fld.Names) == 0 {
+			i++
+		}
+	}
+	u.results, u.resTys = nil, nil
+	for k := 0; k < sig.Results().Len(); k++ {
+		u.resTys = append(u.resTys, sig.Results().At(k).Type())
+	}
+	saveDefers := env.defers
+	env.defers = nil
+	outs := u.execBlock(li.lit.Body.List, env)
+	var res []Outcome
+	for _, o := range outs {
+		switch o.kind {
+		case oNext, oReturn:
+			u.runDefers(o.env, at)
+			o.env.defers = saveDefers
+			res = append(res, Outcome{env: o.env, kind: oReturn, vals: o.vals})
+		default:
+			res = append(res, o)
+		}
+	}
+	return res
+}
+
+func (u *Unit) applyLitByContract(env *Env, li *litInfo, fn Term, sig *types.Signature, args []Value, at ast.Node) []Outcome {
+	blk := li.blk
+	sc := *u.ownCtx
+	sc.bound = map[string]Value{}
+	i := 0
+	for _, fld := range li.lit.Type.Params.List {
+		for _, n := range fld.Names {
+			if i < len(args) {
+				sc.bound[n.Name] = args[i]
+			}
+			i++
+		}
+	}
+	pre := env.clone()
+	sc.old = pre
+	sc.clockBase = env.clock
+	for k, cl := range blk.Of("requires") {
+		label := cl.Label
+		if label == "" {
+			label = fmt.Sprintf("req%d", k)
+		}
+		t := u.specExprCtx(cl, env, &sc)
+		u.assert(env, fmt.Sprintf("pre/lit%d/%s", li.ord, label), "pre", at.Pos(), cl.Text, t)
+		env.assume(t)
+	}
+	if blk.Opts["effects"] == "trace" {
+		u.havocTrace(env)
+	}
+	var vals []Value
+	for k := 0; k < sig.Results().Len(); k++ {
+		rt := sig.Results().At(k).Type()
+		rv := u.D.Fresh("litres", u.sortOf(rt))
+		u.typeInvariant(env, rv, rt)
+		vals = append(vals, Value{rv, rt})
+		sc.bound[fmt.Sprintf("r%d", k)] = Value{rv, rt}
+	}
+	for _, cl := range blk.Of("ensures") {
+		env.assume(u.specExprCtx(cl, env, &sc))
+	}
+	return ret(env, vals...)
+}
+
+// closure creation when the literal has a contract block: remember it; pure literals also get their contract as an axiom
+func (u *Unit) closureByContract(lit *ast.FuncLit, sig *types.Signature, clo Term, blk *Block, env *Env, ord int) {
+	// registration happens in closure(); nothing else to do at creation time
 }
 
 func (u *Unit) execGo(st *ast.GoStmt, env *Env) []Outcome {
-	unsup("go statement at %s", u.pos(st.Pos()))
-	return nil
+	// go f(args): a spawn event; the body runs elsewhere (it is verified as its own unit when it has a contract)
+	fun := unparen(st.Call.Fun)
+	fnT := Term{"nil_Fn", SFn}
+	if lit, ok := fun.(*ast.FuncLit); ok {
+		fnT = u.closure(lit, env).Term
+	} else if fi := u.calleeInfo(st.Call); fi != nil {
+		name := "fn_" + identSan.ReplaceAllString(fi.Key, "_")
+		u.D.Once("const:"+name, fmt.Sprintf("(declare-const %s Fn)", name))
+		fnT = Term{name, SFn}
+		if se, ok := fun.(*ast.SelectorExpr); ok {
+			u.eval(se.X, env)
+		}
+	} else {
+		fnT = u.eval(fun, env).Term
+	}
+	for _, a := range st.Call.Args {
+		u.eval(a, env)
+	}
+	u.emit(env, 4, fnT, Term{}, Term{}, Term{})
+	return next(env)
 }
 
 func (u *Unit) execSend(st *ast.SendStmt, env *Env) []Outcome {
-	unsup("send statement at %s", u.pos(st.Pos()))
-	return nil
+	ch := u.eval(st.Chan, env)
+	v := u.eval(st.Value, env)
+	u.safety(env, "nil", st.Pos(), "send on nil channel "+u.exprText(st.Chan), Not(Same(ch.Term, Term{"nil_Ref", SRef})))
+	u.sendCheck(env, ch.Term, st)
+	arg := v.Term
+	if v.Sort != SVal {
+		arg = u.box(v).Term
+	}
+	fnT := Term{}
+	if v.Sort == SFn {
+		fnT = v.Term
+	}
+	u.emit(env, 5, fnT, arg, ch.Term, Term{})
+	return next(env)
 }
+
+// hook for the closed-channel discipline (C15): overridden by opts of the unit
+func (u *Unit) sendCheck(env *Env, ch Term, at ast.Node) {}
 
 func (u *Unit) execSelect(st *ast.SelectStmt, env *Env) []Outcome {
 	unsup("select statement at %s", u.pos(st.Pos()))
@@ -41,16 +309,8 @@ func (u *Unit) chanRecv(env *Env, ch ast.Expr, pos token.Pos) (Value, Term) {
 func (u *Unit) chanNew(env *Env, r Term) {}
 
 func (u *Unit) chanClose(env *Env, ch Term, at ast.Node) {
-	unsup("close of channel at %s", u.pos(at.Pos()))
-}
-
-func (u *Unit) applyEffectful(env *Env, fn Term, sig *types.Signature, args []Value, at ast.Node) []Outcome {
-	unsup("effectful callback at %s", u.pos(at.Pos()))
-	return nil
-}
-
-func (u *Unit) closureByContract(lit *ast.FuncLit, sig *types.Signature, clo Term, blk *Block, env *Env, ord int) {
-	unsup("closure contracts not supported yet")
+	u.safety(env, "nil", at.Pos(), "close of nil channel", Not(Same(ch, Term{"nil_Ref", SRef})))
+	u.emit(env, 6, Term{}, Term{}, ch, Term{})
 }
 
 func (u *Unit) sortSliceStable(c *ast.CallExpr, env *Env) []Outcome {
